@@ -1,13 +1,15 @@
 /* Contracts for the Huffman-side helpers of the igzip compressor (properties C18, C17, C01):
- *   igzip/huffman.h   bsr, tzbytecnt, compute_dist_code, get_dist_code, get_len_code,
- *                     compute_dist_icf_code, get_dist_icf_code, get_len_icf_code, compare258, compare
- *   igzip/huff_codes.c convert_dist_to_dist_sym, convert_length_to_len_sym, are_hufftables_useable,
- *                     write_rl, rl_encode, set_huff_codes, set_dist_huff_codes, fix_code_lens,
- *                     create_packed_len_table, create_packed_dist_table, expand_hufftables_icf
- *   igzip/igzip.c     isal_deflate_set_hufftables
+ *   igzip/huffman.h    bsr, tzbytecnt, compute_dist_code, get_dist_code, get_len_code,
+ *                      compute_dist_icf_code, get_dist_icf_code, get_len_icf_code, compare258, compare
+ *   igzip/huff_codes.c (-DHUFF_WITH_CODES) convert_dist_to_dist_sym, convert_length_to_len_sym,
+ *                      are_hufftables_useable, write_rl (+ the closed-form greedy run-length spec and its
+ *                      RFC-validity lemma), create_hufftables_icf (frame only, callees by frame-only contracts)
+ *   bounded stand-ins for set_huff_codes, set_dist_huff_codes, rl_encode live in harness/igzip/huff_b.c
+ * isal_deflate_set_hufftables (igzip.c) is in contracts/igzip_lz.h.
  * Postconditions are stated against contracts/spec_deflate_rfc.h (RFC 1951 tables typed in from the RFC).
  * C_<fn> is spliced in front of the body of <fn>, L_<fn>_<n> after the header of its n-th loop,
- * H_<fn>_<n> as first statement of that loop's body. */
+ * H_<fn>_<n> as first statement of that loop's body.  Other families reuse C_compare258 / C_get_*_code
+ * read-only: keep those macro names stable. */
 #ifndef IGZIP_HUFF_H
 #define IGZIP_HUFF_H
 #include "verif_common.h"
@@ -267,17 +269,26 @@ spec_rl_count(uint32_t v, uint32_t run, uint32_t k0, uint32_t r0, uint32_t k1, u
                                    : 0u);
 }
 #define RL_ARGS(v, run) (v), (run), g_k0, g_r0, g_k1, g_r1
-extern uint32_t g_c; /* ghost code-length symbol 0..18 */
+extern uint32_t g_c, g_n; /* ghost code-length symbol 0..18; ghost copy of the number of entries */
 #ifndef RL_MAXRUN
 #define RL_MAXRUN 0x7fffffffu
 #endif
 #define RL_N spec_rl_n(RL_ARGS(last_len, run_len))
+/* the two cases are proved by separate harnesses (-DRL_ONLY_ZERO / -DRL_ONLY_NONZERO) to keep each small */
+#if defined(RL_ONLY_ZERO)
+#define RL_CASE (last_len == 0)
+#elif defined(RL_ONLY_NONZERO)
+#define RL_CASE (last_len != 0)
+#else
+#define RL_CASE 1
+#endif
 #define C_write_rl                                                                                 \
-        __CPROVER_requires(last_len <= 15 && 1 <= run_len && run_len <= RL_MAXRUN && RL_DECOMP(run_len)) \
+        __CPROVER_requires(last_len <= 15 && 1 <= run_len && run_len <= RL_MAXRUN && RL_DECOMP(run_len) && RL_CASE) \
         __CPROVER_requires(__CPROVER_is_fresh(pout, RL_N * sizeof(struct rl_code)))                \
         __CPROVER_requires(__CPROVER_is_fresh(counts, 19 * sizeof(uint64_t)))                      \
-        __CPROVER_requires(g_c < 19)                                                               \
-        __CPROVER_assigns(__CPROVER_object_whole(pout), __CPROVER_object_whole(counts))            \
+        __CPROVER_requires(g_c < 19 && g_n == RL_N)                                                \
+        __CPROVER_assigns(__CPROVER_object_upto(pout, g_n * sizeof(struct rl_code)),               \
+                          __CPROVER_object_whole(counts))                                          \
         __CPROVER_ensures(__CPROVER_return_value == pout + RL_N)                                   \
         __CPROVER_ensures(g_k < RL_N ==> (pout[g_k].code == spec_rl_code(RL_ARGS(last_len, run_len), g_k) && \
                                           pout[g_k].extra_bits == spec_rl_extra(RL_ARGS(last_len, run_len), g_k))) \
@@ -295,7 +306,9 @@ extern uint32_t g_c; /* ghost code-length symbol 0..18 */
                                  (g_k < RL_J ==> (__CPROVER_loop_entry(pout)[g_k].code == 18 &&    \
                                                   __CPROVER_loop_entry(pout)[g_k].extra_bits == 127))) \
         __CPROVER_decreases(run_len)
+#if !defined(RL_ONLY_NONZERO) && !defined(RL_NO_HOOKS)
 #define H_write_rl_1 VCANARY();
+#endif
 #define L_write_rl_2                                                                               \
         __CPROVER_assigns(pout, run_len, __CPROVER_object_whole(pout), counts[16])                 \
         __CPROVER_loop_invariant(__CPROVER_same_object(pout, __CPROVER_loop_entry(pout)) &&        \
@@ -308,7 +321,89 @@ extern uint32_t g_c; /* ghost code-length symbol 0..18 */
                                   (__CPROVER_loop_entry(pout)[g_k - 1].code == 16 &&               \
                                    __CPROVER_loop_entry(pout)[g_k - 1].extra_bits == 3)))          \
         __CPROVER_decreases(run_len)
+#if !defined(RL_ONLY_ZERO) && !defined(RL_NO_HOOKS)
 #define H_write_rl_2 VCANARY();
+#endif
+
+
+/* ------------------------------------------------------------------------------------------------
+ * create_hufftables_icf: FRAME contract (C15: no library global is written, in particular not the
+ * non-const `static_hufftables`; C05 for the glue).  All callees are replaced by frame-only contracts
+ * (ASSUMED; init_heap32/gen_huff_code_lens end in the NASM heap routines): each may write exactly the
+ * objects it is handed.  What is proved: create_hufftables_icf itself (its three loops, the memcpy's, the
+ * choice between dynamic and static tables) writes only *bb, the output bytes, *hufftables and *hist, and
+ * hands its callees only those objects and its own locals.
+ * ---------------------------------------------------------------------------------------------- */
+#define C_init_heap32                                                                              \
+        __CPROVER_requires(__CPROVER_w_ok(heap_space, sizeof(*heap_space)) && __CPROVER_r_ok(histogram, hist_size * 4)) \
+        __CPROVER_assigns(__CPROVER_object_upto((uint8_t *) heap_space, sizeof(struct heap_tree))) \
+        __CPROVER_ensures(1)
+#define C_gen_huff_code_lens                                                                       \
+        __CPROVER_requires(__CPROVER_w_ok(heap_space, sizeof(*heap_space)) && max_code_len <= 15 && \
+                           __CPROVER_w_ok(bl_count, 16 * 4) && codes_count <= 513 &&               \
+                           __CPROVER_w_ok(codes, codes_count * sizeof(struct huff_code)))          \
+        __CPROVER_assigns(__CPROVER_object_upto((uint8_t *) heap_space, sizeof(struct heap_tree)), \
+                          __CPROVER_object_upto((uint8_t *) bl_count, 16 * 4),                     \
+                          __CPROVER_object_upto((uint8_t *) codes, codes_count * sizeof(struct huff_code))) \
+        __CPROVER_ensures(1)
+#define C_set_huff_codes                                                                           \
+        __CPROVER_requires(0 < table_length && table_length <= 513 &&                              \
+                           __CPROVER_w_ok(huff_code_table, table_length * sizeof(struct huff_code)) && \
+                           __CPROVER_r_ok(count, 16 * 4))                                          \
+        __CPROVER_assigns(__CPROVER_object_upto((uint8_t *) huff_code_table, table_length * sizeof(struct huff_code))) \
+        /* ASSUMED: a symbol with a non-zero count gets a code -- EOB (256) is forced to count >= 1 by the caller */ \
+        __CPROVER_ensures(__CPROVER_return_value < (uint32_t) table_length &&                      \
+                          (table_length == 286 ==> __CPROVER_return_value >= 256))
+#define C_set_dist_huff_codes                                                                      \
+        __CPROVER_requires(__CPROVER_w_ok(codes, 30 * sizeof(struct huff_code)) && __CPROVER_w_ok(bl_count, 16 * 4)) \
+        __CPROVER_assigns(__CPROVER_object_upto((uint8_t *) codes, 30 * sizeof(struct huff_code)), bl_count[0]) \
+        /* ASSUMED: the heap always holds at least two symbols (init_heap32), so symbol 1 or higher has a code */ \
+        __CPROVER_ensures(1 <= __CPROVER_return_value && __CPROVER_return_value < 30)
+#define C_rl_encode                                                                                \
+        __CPROVER_requires(1 <= num_codes && num_codes <= 316 && __CPROVER_r_ok(codes, num_codes * 2) && \
+                           __CPROVER_w_ok(counts, 19 * 8) && __CPROVER_w_ok(out, 316 * sizeof(struct rl_code))) \
+        __CPROVER_assigns(__CPROVER_object_upto((uint8_t *) counts, 19 * 8),                       \
+                          __CPROVER_object_upto((uint8_t *) out, 316 * sizeof(struct rl_code)))    \
+        __CPROVER_ensures(__CPROVER_return_value <= 316)
+#define C_create_header                                                                            \
+        __CPROVER_requires(__CPROVER_w_ok(header_bitbuf, sizeof(*header_bitbuf)) && length <= 316 && \
+                           __CPROVER_r_ok(huffman_rep, 316 * sizeof(struct rl_code)) &&            \
+                           __CPROVER_r_ok(histogram, 19 * 8) && hlit <= 29 && hdist <= 29)         \
+        __CPROVER_assigns(__CPROVER_object_upto((uint8_t *) header_bitbuf, sizeof(struct BitBuf2)), \
+                          __CPROVER_object_whole(header_bitbuf->m_out_start))                      \
+        __CPROVER_ensures(header_bitbuf->m_out_start == __CPROVER_old(header_bitbuf->m_out_start) && \
+                          header_bitbuf->m_out_end == __CPROVER_old(header_bitbuf->m_out_end) &&   \
+                          __CPROVER_same_object(header_bitbuf->m_out_buf, header_bitbuf->m_out_start) && \
+                          __CPROVER_POINTER_OFFSET(header_bitbuf->m_out_buf) + 8 <= g_osz && header_bitbuf->m_bit_count <= 7)
+#define C_expand_hufftables_icf                                                                    \
+        __CPROVER_requires(__CPROVER_w_ok(hufftables, sizeof(*hufftables)))                        \
+        __CPROVER_assigns(__CPROVER_object_upto((uint8_t *) hufftables, sizeof(struct hufftables_icf))) \
+        __CPROVER_ensures(1)
+extern uint64_t g_osz; /* ghost: size of the output object behind bb */
+#define C_create_hufftables_icf                                                                    \
+        __CPROVER_requires(__CPROVER_is_fresh(bb, sizeof(*bb)))                                    \
+        __CPROVER_requires(__CPROVER_is_fresh(hufftables, sizeof(*hufftables)))                    \
+        __CPROVER_requires(__CPROVER_is_fresh(hist, sizeof(*hist)))                                \
+        __CPROVER_requires(16 <= g_osz && g_osz <= 0x100000 && __CPROVER_is_fresh(bb->m_out_start, g_osz)) \
+        __CPROVER_requires(bb->m_out_end == bb->m_out_start + (g_osz - 8) &&                       \
+                           __CPROVER_same_object(bb->m_out_buf, bb->m_out_start) &&                \
+                           __CPROVER_POINTER_OFFSET(bb->m_out_buf) + 8 <= g_osz && bb->m_bit_count <= 7 && \
+                           (bb->m_bits >> bb->m_bit_count) == 0)                                   \
+        __CPROVER_assigns(__CPROVER_object_whole(bb), __CPROVER_object_whole(bb->m_out_start),     \
+                          __CPROVER_object_whole(hufftables), __CPROVER_object_whole(hist))        \
+        __CPROVER_ensures(hist->ll_hist[256] != 0)
+#define L_create_hufftables_icf_1                                                                  \
+        __CPROVER_assigns(i, compressed_len, static_compressed_len, __CPROVER_object_whole(combined_table)) \
+        __CPROVER_loop_invariant(0 <= i && i <= 257)                                               \
+        __CPROVER_decreases(257 - i)
+#define L_create_hufftables_icf_2                                                                  \
+        __CPROVER_assigns(i, compressed_len, static_compressed_len, __CPROVER_object_whole(combined_table)) \
+        __CPROVER_loop_invariant(257 <= i && i <= 286 && (uint32_t) i <= max_ll_code + 1)          \
+        __CPROVER_decreases(286 - i)
+#define L_create_hufftables_icf_3                                                                  \
+        __CPROVER_assigns(i, compressed_len, static_compressed_len, __CPROVER_object_whole(combined_table)) \
+        __CPROVER_loop_invariant(0 <= i && i <= 30 && (uint32_t) i <= max_d_code + 1)              \
+        __CPROVER_decreases(30 - i)
 
 #endif /* HUFF_WITH_CODES */
 
